@@ -216,11 +216,10 @@ def judge_model(ctx, case, resp):
     return fail
 
 
+# only OPEN findings take part in explaining a value (the models of the repaired ones - bkm_service_value 2513f87, ctx_flat 45f37e2 - could,
+# combined with an open one, "explain" a value the open one alone leaves undetermined; a regression of a repaired defect shows as wrong-value)
 DEVIATIONS = [("fd_null", "C04/boxed-function-definition", lambda m: model_has_fd(m)),
               ("fd_dynamic", "C04/boxed-function-definition", lambda m: model_has_fd(m)),
-              ("bkm_service_value", "C04/bkm-requires-service-bound-to-value",
-               lambda m: any(idx_kind(m, r) == "service" for b in m["bkms"] for r in b["reqK"])),
-              ("ctx_flat", "C04/nested-context-entries-leak", lambda m: True),
               ("inv_omitted", "C04/knowledge-model-sees-the-invoking-scope", lambda m: True)]
 
 
